@@ -338,6 +338,26 @@ class Fragment:
     def _toks(self):
         return code_tokens(self.orig)
 
+    def plain_closures(self):
+        """Offsets (in the original text) of closure heads that no rewrite covers. Verus accepts a closure without `ensures` and then knows
+        nothing about its result, so an obligation that fails next to a closure the unit description does not know is undecided, not refuted."""
+        toks = self._toks()
+        out = []
+        for ix, (k, s, e) in enumerate(toks):
+            if k != "punct" or self.orig[s:e] != "|":
+                continue
+            if ix == 0:
+                continue
+            pk, ps, pe = toks[ix - 1]
+            prev = self.orig[ps:pe]
+            starts = (pk == "punct" and prev in ("(", ",", "=", "{", ";", "[")) or (pk == "ident" and prev in ("move", "return"))
+            if not starts:
+                continue
+            if any((a <= s < b) or (a == s and kind == "rep") for (a, b, _n, kind, _t, _m) in self.edits if b > a):
+                continue
+            out.append(s)
+        return out
+
     def _body_open_rel(self):
         if self.item is None or self.item.body_open is None:
             raise AnchorLost("%s has no body" % self.name)
@@ -485,7 +505,7 @@ class Fragment:
             raise AnchorLost("%s: `in` of for-loop #%d not found" % (self.name, k))
         return self.insert_at(m.end(), "%s: " % name)
 
-    def while_let_to_loop(self, k, spec="", before_next="", on_none="", after_next="", scrutinee_map=None):
+    def while_let_to_loop(self, k, spec="", before_next="", on_none="", after_next="", scrutinee_map=None, attrs=""):
         """R1: `while let PAT = EXPR {` => `loop SPEC { before; let PAT = EXPR' else { on_none break; }; after`
         (EXPR' = scrutinee_map(EXPR) when given, e.g. a method call put behind a shim)."""
         ls = self.loops()
@@ -499,7 +519,7 @@ class Fragment:
         pat, expr = m.group(1), m.group(2)
         if scrutinee_map:
             expr = scrutinee_map(expr)
-        new = "loop\n%s\n{\n%s let %s = %s else { %s break; };\n%s" % (spec.rstrip(), before_next, pat, expr, on_none, after_next)
+        new = "%sloop\n%s\n{\n%s let %s = %s else { %s break; };\n%s" % (attrs, spec.rstrip(), before_next, pat, expr, on_none, after_next)
         return self.replace_span(s, bo + 1, new, "R1", "while-let -> loop + let-else (same control flow; Verus has no while-let)")
 
     def for_to_loop(self, k, spec="", before_next="", on_none="", after_next="", it_name=None, iter_expr=None, after_decl="", next_map=None):
